@@ -65,6 +65,13 @@ VALID = [
     'if true {\n  require "fileinto";\n  fileinto "x";\n}\n',
     'require "copy";\nif true {\n  require ["fileinto", "envelope"];\n  fileinto :copy "x";\n}\n',
 ]
+# scripts as the factory writes them (named filters, some of them disabled): what a reloader typically loads
+RELOADABLE = [
+    '# Filter: one\n# Description: d\nif true { keep; }\n# Filter: two\nif false { if true { stop; } }\n',
+    'require ["fileinto"];\n\n# Filter: a\nif false {\n    if anyof (header :is "Subject" "x") {\n        fileinto "F";\n    }\n}\n\n# Filter: b\nif anyof (size :over 1M) {\n    stop;\n}\n',
+    'require ["fileinto", "copy"];\n# Filter: only\nif false {\n    if allof (header :contains "A" "b", exists "X") {\n        fileinto :copy "G";\n        stop;\n    }\n}\n',
+    '# Filter: p\nif false { if true { keep; } }\n# Filter: q\nif false { if false { discard; } }\n# Filter: r\nif true { stop; }\n',
+]
 # degenerate but valid scripts: nothing at all (as str and as bytes), a blank line, a lone comment
 DEGENERATE = ['', b'', '\n', '# only a comment\n']
 INVALID = [
@@ -188,10 +195,39 @@ class Actors:
             try:
                 fs = FiltersSet("r")
                 fs.from_parser_result(p)
+                # a second set loaded from the very same parse result (a working copy next to a pristine one)
+                self.twin_a, self.twin_b = fs, FiltersSet("r")
+                self.twin_b.from_parser_result(p)
+                self.twin_b_text = str(self.twin_b)
                 return ("reload-load", str(fs), [_fa(f, "name") for f in fs.filters], [_fa(f, "enabled") for f in fs.filters],
                         sorted(fs.requires))
             except Exception as e:
+                self.twin_a = None
                 return ("reload-load", "raised %s: %s" % (type(e).__name__, e))
+        if kind == "twin-edit":
+            # an editing operation on the working copy; the pristine copy loaded from the same parse result is then rendered
+            a = getattr(self, "twin_a", None)
+            if a is None or not a.filters:
+                return ("twin-edit", "nothing loaded")
+            name = _fa(a.filters[spec[2] % len(a.filters)], "name")
+            try:
+                if spec[1] == "update":
+                    conds, acts, mt = EDITOR_DEFS[spec[3]]
+                    r = a.updatefilter(name, name, conds, acts, mt)
+                elif spec[1] == "disable":
+                    r = a.disablefilter(name)
+                elif spec[1] == "enable":
+                    r = a.enablefilter(name)
+                else:
+                    r = a.replacefilter(name, a.getfilter(name), None, "edited")
+                res = ("ret", repr(r))
+            except Exception as e:
+                res = ("exc", type(e).__name__, str(e))
+            try:
+                now = str(self.twin_b)
+            except Exception as e:
+                now = "render raised %s: %s" % (type(e).__name__, e)
+            return ("twin-edit", res, now == self.twin_b_text, now if now != self.twin_b_text else "", self.twin_b_text if now != self.twin_b_text else "")
         if kind == "editor":
             _, eid, op = spec
             fs = self.editors.get(eid)
@@ -353,18 +389,27 @@ def run(ch, config, res):
             if wl.flag("early", 1, 3):
                 actors.append("early")
     plan = []
-    reload_pending = [False]
+    reload_pending = [0]
     early_pending = [False]
     for i in range(nsteps):
         with ch.scope("step#%d" % i):
             a = actors[ch.sched.int("actor", len(actors))]
             if a == "reload":
-                if reload_pending[0]:
+                if reload_pending[0] == 1:
                     plan.append(("reload-load",))
-                    reload_pending[0] = False
+                    reload_pending[0] = 2
+                elif reload_pending[0] == 2 and wl.flag("twin", 2, 3):
+                    plan.append(("twin-edit", ["update", "disable", "enable", "replace"][wl.int("twinop", 4)], wl.int("twinidx", 3),
+                                 wl.int("twindef", len(EDITOR_DEFS))))
+                    if wl.flag("twin_done", 1, 2):
+                        reload_pending[0] = 0
                 else:
-                    plan.append(("reload-parse", draw_script(wl, "script", classes)))
-                    reload_pending[0] = True
+                    if wl.flag("reloadable", 1, 2):
+                        classes.add("valid")
+                        plan.append(("reload-parse", RELOADABLE[wl.int("reloadable.i", len(RELOADABLE))]))
+                    else:
+                        plan.append(("reload-parse", draw_script(wl, "script", classes)))
+                    reload_pending[0] = 1
             elif a == "early":
                 if early_pending[0]:
                     plan.append(("early-use", draw_script(wl, "script", classes)))
@@ -399,7 +444,7 @@ def run(ch, config, res):
     for idx, spec in enumerate(plan):
         if spec[0] == "editor":
             editor_hist.setdefault(spec[1], []).append(idx)
-        elif spec[0] in ("reload-parse", "reload-load"):
+        elif spec[0] in ("reload-parse", "reload-load", "twin-edit"):
             editor_hist.setdefault("reloader", []).append(idx)
     editor_base = {}
     for eid, idxs in editor_hist.items():
@@ -423,6 +468,13 @@ def run(ch, config, res):
                 who = {"reused": "reused", "fresh": "fresh", "early-use": "constructed-earlier"}[spec[0]]
                 failure = Failure(PROP, "C13.parse", "step %d (%s Parser, after %d other calls): parsing %r gave %r; alone in a pristine interpreter it gives %r" % (
                     idx, who, idx, spec[1], _short(got[idx]), _short(base)), {"step": idx})
+        elif spec[0] == "twin-edit":
+            if len(got[idx]) > 2 and got[idx][2] is False:
+                failure = Failure(PROP, "C13.factory", "step %d: %s on one FiltersSet changed the rendering of another FiltersSet loaded from the same parse result: %r, was %r" % (
+                    idx, spec[1], _short(got[idx][3]), _short(got[idx][4])), {"step": idx})
+            elif got[idx] != editor_base[idx]:
+                failure = Failure(PROP, "C13.factory", "step %d: %s on a loaded FiltersSet after %d interleaved calls gave %r; the reloader's own history alone in a pristine interpreter gives %r" % (
+                    idx, spec[1], idx, _short(got[idx]), _short(editor_base[idx])), {"step": idx})
         elif spec[0] in ("reload-parse", "reload-load"):
             base = editor_base[idx]
             if got[idx] != base:
@@ -436,7 +488,7 @@ def run(ch, config, res):
                     idx, spec[2], idx, _short(got[idx]), _short(base)), {"step": idx})
     res.digest = "%016x" % hash64(repr(got))
     res.count("steps", len(plan))
-    pattern = "".join({"reused": "R", "fresh": "F", "reload-parse": "P", "reload-load": "L", "editor": "E", "early-make": "M", "early-use": "U"}[s[0]] for s in plan)
+    pattern = "".join({"reused": "R", "fresh": "F", "reload-parse": "P", "reload-load": "L", "editor": "E", "early-make": "M", "early-use": "U", "twin-edit": "T"}[s[0]] for s in plan)
     turns = sum(1 for i in range(1, len(pattern)) if pattern[i] != pattern[i - 1])
     if turns >= 1 and (classes & {"invalid", "truncated", "ext-bound-def", "tag-swapped", "char-dropped"}):
         res.sigs.add("%s|%s" % (pattern, ",".join(sorted(classes))))
